@@ -311,9 +311,8 @@ def run(chk):
             chk.evaluations += sum(p['ops'] for p in case['plans'])
             if problems:
                 # data mismatches count at once; a liveness problem only if it reproduces
-                if all('did not finish' in p or 'Timeout' in p for p in problems):
-                    again = run_round(case)
-                    if not again:
-                        chk.count('flaky-liveness-not-counted'); continue
+                if all(common.timing_verdict(p) for p in problems):
+                    if not run_round(case) or not run_round(case):
+                        chk.count('timing-verdict-not-reproduced'); continue
                 chk.violation('C20:' + problems[0][:30], '%d clients, seed %d: %s' % (n, seed, '; '.join(problems[:3])), case)
     chk.lean(['Dicom.Props.C20'])
